@@ -19,6 +19,8 @@ CFields == << <<"a", <<"date">>, <<"req">>, <<>> >>,
               <<"inner", InnerT, <<"req">>, <<>> >>,
               <<"items", <<"list", InnerT>>, <<"req">>, <<>> >>,
               <<"p", PT, <<"req">>, <<>> >>,
+              \* a union whose member decoding depends on the dialect (the generated union helper is compiled per dialect)
+              <<"u", <<"union", << <<"date">>, <<"str">> >> >>, <<"req">>, <<>> >>,
               <<"o", <<"opt", <<"str">> >>, <<"val", None>>, << <<"alias", "oo">> >> >> >>
 CFlags == IF KwFlags THEN {"dialect_flag", "omit_none_flag", "by_alias_flag"} ELSE {"dialect_flag"}
 MixinOpt == IF Mixin = "dict" THEN <<>> ELSE << <<"mixin", Mixin>> >>
@@ -40,11 +42,11 @@ MCKwNames == IF KwFlags THEN (IF Mixin = "orjson" THEN {"none", "omit_none", "by
 Raw == <<"bytes", <<1, 2, 255>> >>
 InnerV(y, o) == <<"obj", "Inner", <<Dt(y), o>> >>
 MCValueOf(n) ==
-  IF n = "C" THEN <<"obj", "C", <<Dt(2024), Raw, InnerV(2021, None), L(<<InnerV(2022, I(5))>>), <<"obj", "P", <<Dt(2023)>> >>, None>> >>
-  ELSE <<"obj", "S", <<Dt(2024), Raw, InnerV(2021, None), L(<<InnerV(2022, I(5))>>), <<"obj", "P", <<Dt(2023)>> >>, S("s"), Dt(2019)>> >>
+  IF n = "C" THEN <<"obj", "C", <<Dt(2024), Raw, InnerV(2021, None), L(<<InnerV(2022, I(5))>>), <<"obj", "P", <<Dt(2023)>> >>, Dt(2025), None>> >>
+  ELSE <<"obj", "S", <<Dt(2024), Raw, InnerV(2021, None), L(<<InnerV(2022, I(5))>>), <<"obj", "P", <<Dt(2023)>> >>, Dt(2025), S("s"), Dt(2019)>> >>
 Ds(y) == S(IsoDate(y, 2, 28))
 InnerJ(y) == Dct(<< <<S("d"), Ds(y)>> >>)
 MCInputOf(n) ==
-  Dct(<< <<S("a"), Ds(2024)>>, <<S("raw"), S(EncodeBytes(<<1, 2, 255>>))>>, <<S("inner"), InnerJ(2021)>>, <<S("items"), L(<<InnerJ(2022)>>)>>, <<S("p"), InnerJ(2023)>> >>
+  Dct(<< <<S("a"), Ds(2024)>>, <<S("raw"), S(EncodeBytes(<<1, 2, 255>>))>>, <<S("inner"), InnerJ(2021)>>, <<S("items"), L(<<InnerJ(2022)>>)>>, <<S("p"), InnerJ(2023)>>, <<S("u"), Ds(2025)>> >>
       \o (IF n = "S" THEN << <<S("z"), Ds(2019)>>, <<S("oo"), S("t")>> >> ELSE <<>>))
 =============================================================================
